@@ -384,29 +384,6 @@ fn gen_op(prop: &str, d: &Desc, cur: &Value, avail: usize, rng: &mut Rng) -> Opt
     }
 }
 
-/// a value of shape `d` whose extent is as close as possible to `target` bytes (containers only)
-fn value_with_extent(d: &Desc, target: usize, rng: &mut Rng) -> Option<Value> {
-    match d {
-        Desc::Vec { elem, len } if elem.size() > 0 => {
-            let k = (target.saturating_sub(d.vec_data_off()) / elem.size()).min(len.max_usize());
-            Some(Value::Seq((0..k).map(|_| gen_value(elem, rng, 4)).collect()))
-        }
-        Desc::Str { len } => {
-            let k = target.saturating_sub(len.size).min(len.max_usize());
-            Some(Value::Str("z".repeat(k)))
-        }
-        Desc::Struct { fields, sized: false, .. } => {
-            let (offs, _, _) = c_struct(fields);
-            let last = fields.len() - 1;
-            let tail = value_with_extent(&fields[last], target.saturating_sub(offs[last]), rng)?;
-            let mut vals: Vec<Value> = fields[..last].iter().map(|f| gen_value(f, rng, 4)).collect();
-            vals.push(tail);
-            Some(Value::Struct(vals))
-        }
-        _ => None,
-    }
-}
-
 struct NodeSel {
     path: Vec<u32>,
     off: usize,
